@@ -10,6 +10,6 @@ CONSTANTS
   OptSets <- AllOpts
   ExitCodes = {0, 3}
   EchoAssumed = TRUE
-INVARIANTS TypeOK PassThroughOut PassThroughIn PtrClearedOnEveryExit NoStuckFlags PromptOnlyInTransfer ExitPassed LastWordsDelivered HistoryOK
+INVARIANTS TypeOK PassThroughOut PassThroughIn PtrClearedOnEveryExit NoStuckFlags PromptOnlyInTransfer ExitPassed LastWordsDelivered
 PROPERTY Live
 CHECK_DEADLOCK FALSE
